@@ -444,15 +444,15 @@ func (m *fakeRxMsg) Descriptor() *descriptor.Message {
 // ---------------------------------------------------------------- fake transmitted message
 
 type fakeTxMsg struct {
-	w         *world
-	n         *fakeNode
-	tid       int
-	desc      *descriptor.Message
-	flag      bool
-	token     bool // the harness believes a token is in the wake-up channel
-	content   int
-	wakeCh    chan struct{} // the real thing: capacity one, filled by a non-blocking send
-	gen       genTx         // non-nil: flag and wake-up channel are those of a GENERATED message (MotorCommand of the example's
+	w       *world
+	n       *fakeNode
+	tid     int
+	desc    *descriptor.Message
+	flag    bool
+	token   bool // the harness believes a token is in the wake-up channel
+	content int
+	wakeCh  chan struct{} // the real thing: capacity one, filled by a non-blocking send
+	gen     genTx         // non-nil: flag and wake-up channel are those of a GENERATED message (MotorCommand of the example's
 	// DRIVER node): toggles go through the generated SetCyclicTransmissionEnabled, the runner reads the generated
 	// IsCyclicTransmissionEnabled / WakeUpChan
 	evOut     chan struct{}
